@@ -117,7 +117,7 @@ Families(ev) == { k \in DOMAIN ev.out : k \notin { "ret", "icb", "fault", "ecb",
 DocStatic == { "f_ecdsa_verify", "f_schnorr_verify", "f_tagged_sha256", "f_ecdh", "f_rangeproof_verify", "f_adaptor_verify",
                "f_seckey_tweak_add", "f_pubkey_tweak_add", "f_pubkey_tweak_mul", "f_ellswift_xdh", "f_musig_keyagg", "f_der", "f_keypair_tweak",
                "f_pedersen_tally", "f_s2c_verify_commit", "f_anti_exfil_host_verify", "f_rangeproof_info",
-               "f_ellswift_decode", "f_ellswift_encode", "f_xonly", "f_adaptor_decrypt", "f_halfagg_aggregate" }
+               "f_ellswift_decode", "f_ellswift_encode", "f_xonly", "f_adaptor_decrypt", "f_halfagg_aggregate", "f_tagged_sha256_long" }
 ProbeOK(ref, ev) ==
   IF ev.e = "CtxCallStatic"
   THEN \A f \in Families(ev) : \/ ev.out[f] = ref.out[f]
